@@ -1107,3 +1107,167 @@ Proof.
 Qed.
 
 End Corollaries.
+
+(* ================================================================== 11. the view hypothesis in the form C16 proves it *)
+Require CV.Density CV.DensityProofs.
+
+Section ViewC16.
+Local Open Scope Z_scope.
+
+(* what the composition really needs of the limits of a view: strictly increasing, each one a limit of the finest grid *)
+Definition limits_view (fine v : list Z) : Prop :=
+  DensityProofs.schainZ v /\ forall a, In a v -> In a fine.
+
+Lemma schain_pairs : forall (l : list Z) lo hi, DensityProofs.schainZ l -> In (lo, hi) (pairs l) ->
+  lo < hi /\ In lo l /\ In hi l.
+Proof.
+  unfold pairs. induction l as [|a l IH]; intros lo hi Hs Hin; [destruct Hin|].
+  destruct l as [|b l]; [destruct Hin|]. cbn [tl combine] in Hin. destruct Hs as [Hab Hs].
+  destruct Hin as [E|Hin].
+  - inversion E; subst. split; [exact Hab|]. split; [left; reflexivity|right; left; reflexivity].
+  - destruct (IH lo hi Hs Hin) as [H1 [H2 H3]]. split; [exact H1|]. split; right; assumption.
+Qed.
+
+Lemma sorted_schain : forall l, StronglySorted Z.lt l -> DensityProofs.schainZ l.
+Proof.
+  induction l as [|a l IH]; intros Hs; [exact I|]. destruct l as [|b l]; [exact I|].
+  inversion Hs as [|? ? Hs' Ha]; subst. split; [inversion Ha; assumption|apply IH; exact Hs'].
+Qed.
+
+(* the boolean test of the tie implies it *)
+Lemma is_view_limits_view : forall L H fine v, limits_ok L H fine -> is_view fine v = true -> limits_view fine v.
+Proof.
+  intros L H fine v Hl Hv. apply is_view_subseq in Hv. split.
+  - apply sorted_schain. eapply subseqb_sorted; [exact Hv|]. eapply limits_ok_sorted; exact Hl.
+  - intros a Ha. eapply subseqb_In; eassumption.
+Qed.
+
+Lemma sel_In : forall (l : list Z) idx vs, Density.sel l idx = Some vs -> forall a, In a vs -> In a l.
+Proof.
+  intros l idx. induction idx as [|k idx IH]; intros vs Hs a Ha; simpl in Hs.
+  - inversion Hs; subst. destruct Ha.
+  - destruct (nth_error l k) as [v|] eqn:Ek; [|discriminate]. destruct (Density.sel l idx) as [r|]; [|discriminate].
+    inversion Hs; subst. destruct Ha as [<-|Ha]; [eapply nth_error_In; exact Ek|eapply IH; [reflexivity|exact Ha]].
+Qed.
+
+(* [F] the limits of EVERY level of C16's hierarchy (Density.level_limits over a well-formed hierarchy, theorem
+   c16_level_limits_tile) satisfy it *)
+Lemma c16_level_limits_view : forall fine nb Lv P lvl vs, (1 <= nb)%nat -> DensityProofs.levels_ok nb Lv P ->
+  length fine = S nb -> DensityProofs.schainZ fine ->
+  Density.level_limits fine Lv lvl = Some vs -> limits_view fine vs.
+Proof.
+  intros fine nb Lv P lvl vs Hnb Hlv Hlen Hsc Hv.
+  assert (Hl : (lvl < length Lv)%nat).
+  { unfold Density.level_limits in Hv. destruct (nth_error Lv lvl) eqn:E; [|discriminate]. apply nth_error_Some. congruence. }
+  destruct (DensityProofs.level_limits_tile fine nb Lv P lvl Hnb Hlv Hlen (DensityProofs.schain_chain _ Hsc) Hl)
+    as (vs' & E & _ & _ & _ & Hs).
+  rewrite Hv in E. inversion E; subst vs'. split; [apply Hs; exact Hsc|].
+  unfold Density.level_limits in Hv. destruct (nth_error Lv lvl) as [idx|]; [|discriminate]. eapply sel_In; exact Hv.
+Qed.
+
+(* the bins of one direction, from limits_view *)
+Lemma view_bins_inside_gen : forall (alo ahi : Z) fine vl (bins : list bin) cells v,
+  Z.abs alo <= 2 ^ 24 -> Z.abs ahi <= 2 ^ 24 ->
+  limits_ok alo ahi fine -> (2 <= length fine)%nat -> limits_view fine vl ->
+  cells_window cells -> bins_positive cells v ->
+  (forall b, In b bins -> In (b_lo b, b_hi b) (pairs vl) /\ exists col, In col (v_cells v) /\ In (b_cells b) col) ->
+  forall b, In b bins -> bin_inside alo ahi (map cell_demand cells) b.
+Proof.
+  intros alo ahi fine vl bins cells v Wl Wh Hl Hlen [Hs Hi] Hw Hp Hin b Hb.
+  destruct (Hin b Hb) as [Hpair [col [Hcol Hcs]]].
+  destruct (schain_pairs _ _ _ Hs Hpair) as [A [B C]].
+  pose proof (limits_ok_bounds _ _ _ Hl Hlen) as Bd. rewrite Forall_forall in Bd.
+  pose proof (Bd _ (Hi _ B)). pose proof (Bd _ (Hi _ C)).
+  unfold bin_inside. repeat split; try lia.
+  - apply Hp. eapply bin_cell_in_view; eassumption.
+  - apply demand_bound. exact Hw.
+Qed.
+
+(* [F] MAIN, general form: the view hypothesis as a Prop (limits_view), which c16_level_limits_view derives from C16's
+   hierarchy and is_view_limits_view from the boolean test *)
+Theorem ub_exposed_centres_inside_rows_bbox_gen : forall margin maxSize rows cells v tx ty,
+  0 <= margin -> 1 <= maxSize -> has_proper_row rows ->
+  in_window (bbox (map rr rows)) -> cells_window cells ->
+  limits_view (fst (grid_of_circuit margin maxSize rows cells)) (v_x v) ->
+  limits_view (snd (grid_of_circuit margin maxSize rows cells)) (v_y v) ->
+  bins_positive cells v ->
+  forall i c, nth_error cells i = Some c -> cc_fixed c = false -> (i < length tx)%nat -> (i < length ty)%nat ->
+  let R := bbox (map rr rows) in
+  exists X Y, nth_error (ub_exposure margin rows cells v tx ty) i = Some (Some (X, Y)) /\
+    2 * minX R - placed_w c mod 2 <= 2 * X + placed_w c <= 2 * maxX R + placed_w c mod 2 /\
+    2 * minY R - placed_h c mod 2 <= 2 * Y + placed_h c <= 2 * maxY R + placed_h c mod 2.
+Proof.
+  intros margin maxSize rows cells v tx ty Hm Hs Hrow Hwin Hcw Vx Vy Hpos i c Hc Hfx Hix Hiy R.
+  set (a := circuit_grid_area margin rows cells).
+  destruct (grid_of_circuit margin maxSize rows cells) as [lx ly] eqn:Eg. cbn [fst snd] in Vx, Vy.
+  destruct (grid_of_circuit_limits_all margin maxSize rows cells lx ly Hm Hs Hrow Eg)
+    as (Hin & Hax & Hay & Hlx & Hly & _ & _).
+  fold a in Hin, Hax, Hay, Hlx, Hly. fold R in Hin.
+  destruct Hwin as (W1 & W2 & W3 & W4). fold R in W1, W2, W3, W4. unfold rect_in in Hin.
+  assert (Wa : Z.abs (minX a) <= 2 ^ 24 /\ Z.abs (maxX a) <= 2 ^ 24 /\ Z.abs (minY a) <= 2 ^ 24 /\ Z.abs (maxY a) <= 2 ^ 24) by lia.
+  destruct Wa as (Wa1 & Wa2 & Wa3 & Wa4).
+  assert (Elx : lx = limits (minX a) (maxX a) maxSize /\ ly = limits (minY a) (maxY a) maxSize).
+  { unfold grid_of_circuit in Eg. fold a in Eg. inversion Eg. split; reflexivity. }
+  assert (Llx : (2 <= length lx)%nat) by (destruct Elx as [-> _]; apply limits_length).
+  assert (Lly : (2 <= length ly)%nat) by (destruct Elx as [_ ->]; apply limits_length).
+  pose proof (view_bins_inside_gen (minX a) (maxX a) lx (v_x v) (bins_x v) cells v Wa1 Wa2 Hlx Llx Vx Hcw Hpos (bins_x_in v)) as Bx.
+  pose proof (view_bins_inside_gen (minY a) (maxY a) ly (v_y v) (bins_y v) cells v Wa3 Wa4 Hly Lly Vy Hcw Hpos (bins_y_in v)) as By.
+  destruct (spread_coord_f_inside (minX a) (maxX a) (bins_x v) tx (map cell_demand cells) Wa1 Wa2 ltac:(lia) Bx) as [Fx Lx].
+  destruct (spread_coord_f_inside (minY a) (maxY a) (bins_y v) ty (map cell_demand cells) Wa3 Wa4 ltac:(lia) By) as [Fy Ly].
+  unfold ub_exposure, ub_coords. fold a. cbn [fst snd].
+  set (ux := spread_coord_f true (minX a) (maxX a) (bins_x v) tx (map cell_demand cells)) in *.
+  set (uy := spread_coord_f true (minY a) (maxY a) (bins_y v) ty (map cell_demand cells)) in *.
+  destruct (nth_error ux i) as [x|] eqn:Ex; [|apply nth_error_None in Ex; lia].
+  destruct (nth_error uy i) as [y|] eqn:Ey; [|apply nth_error_None in Ey; lia].
+  rewrite Forall_forall in Fx, Fy.
+  destruct (Fx x (nth_error_In _ _ Ex)) as [Fx1 Fx2]. destruct (Fy y (nth_error_In _ _ Ey)) as [Fy1 Fy2].
+  destruct (placed_sizes_window cells c Hcw (nth_error_In _ _ Hc) Hfx) as [Pw Ph].
+  destruct (export_coord_f_inside x (minX a) (maxX a) (placed_w c) Fx1 Fx2 Wa1 Wa2 ltac:(lia)) as [X [EX BX]].
+  destruct (export_coord_f_inside y (minY a) (maxY a) (placed_h c) Fy1 Fy2 Wa3 Wa4 ltac:(lia)) as [Y [EY BY]].
+  exists X, Y. split; [|lia].
+  rewrite (export_placement_f_nth cells ux uy i c x y Hc Ex Ey). unfold export_cell_f. rewrite Hfx, EX, EY. reflexivity.
+Qed.
+
+End ViewC16.
+
+(* ================================================================== 12. the two models of DensityGrid::fromIspdCircuit agree *)
+Section GridBridge.
+Local Open Scope Z_scope.
+
+Lemma subdivisions_bridge : forall mn mx q,
+  Density.subdivisions mn mx (Z.max 1 q) = Spread.subdivisions mn mx (Z.to_nat (Z.max 1 q)).
+Proof.
+  intros mn mx q. unfold Density.subdivisions, Spread.subdivisions. apply map_ext. intros i.
+  rewrite Z2Nat.id by lia. reflexivity.
+Qed.
+
+Lemma limits_bridge : forall (a : rect) bs,
+  Density.subdivisions (minX a) (maxX a) (Density.nb_bins (Density.rwidth a) bs) = limits (minX a) (maxX a) bs /\
+  Density.subdivisions (minY a) (maxY a) (Density.nb_bins (Density.rheight a) bs) = limits (minY a) (maxY a) bs.
+Proof.
+  intros a bs. unfold limits, Density.nb_bins, Spread.nb_bins, Density.rwidth, Density.rheight.
+  split; apply subdivisions_bridge.
+Qed.
+
+(* [F] C16's grid of a circuit (Density.grid_of_circuit) has exactly the bin limits of C06's (Spread.grid_of_circuit) *)
+Lemma grid_of_circuit_bridge : forall bs margin rows cells,
+  Density.limX (Density.grid_of_circuit bs margin rows cells) = fst (Spread.grid_of_circuit margin bs rows cells) /\
+  Density.limY (Density.grid_of_circuit bs margin rows cells) = snd (Spread.grid_of_circuit margin bs rows cells).
+Proof.
+  intros bs margin rows cells.
+  unfold Density.grid_of_circuit, Spread.grid_of_circuit, Spread.circuit_grid_area.
+  change (Density.clip_rows margin (map rr (compute_rows_circuit rows [] cells)))
+    with (Spread.clip_rows margin (map rr (compute_rows_circuit rows [] cells))).
+  destruct (Spread.clip_rows margin (map rr (compute_rows_circuit rows [] cells))) as [|r0 rs] eqn:Ec.
+  - unfold Density.make_grid_area, Density.with_capacity, Density.make_grid. cbn [Density.limX Density.limY fst snd].
+    change (Density.placement_area [Density.placement_area (map rr rows)]) with (bbox (map rr rows)).
+    apply limits_bridge.
+  - unfold Density.grid_of_rows, Density.make_grid. cbn [Density.limX Density.limY fst snd].
+    change (Density.clip_rows margin (map rr (compute_rows_circuit rows [] cells)))
+      with (Spread.clip_rows margin (map rr (compute_rows_circuit rows [] cells))).
+    rewrite Ec. unfold grid_area. rewrite Ec.
+    change (Density.placement_area (r0 :: rs)) with (bbox (r0 :: rs)).
+    apply limits_bridge.
+Qed.
+
+End GridBridge.
